@@ -3,6 +3,7 @@ pub mod engine;
 pub mod fuzzdrv;
 pub mod props;
 pub mod refcodec;
+pub mod ringsim;
 pub mod simbus;
 
 pub fn all_properties() -> Vec<engine::Property> {
